@@ -17,6 +17,7 @@ EXPLANATION = (
     "guards that make acked<=sent, stale/wrong-file acks inert and cancellation sticky; wait_for_credit's Ok exit "
     "must be guarded by the documented credit predicate. Not decided: the trace-level clause ('a producer "
     "following the documented loop never has more than one window unacknowledged') which quantifies over histories."
+    ' credit-predicate and cancel-first apply to every function returning Result<_, CreditError>; a store to sent_offset is monotone (guarded, max, or sent_offset + x) or a rewind followed on every path by acked_offset = min(acked_offset, sent_offset).'
 )
 ASSUMPTIONS = [
     "std::sync::Mutex gives mutual exclusion; u64::min / saturating_sub have their std semantics",
